@@ -457,13 +457,14 @@ fn check_config(cfg: &Cfg) -> Report {
 }
 
 fn configs(args: &Args) -> Vec<Cfg> {
-    let thorough = args.thorough();
+    let deep = args.thorough();
+    let thorough = true; // the former thorough set costs ~2 s and is now the quick tier as well
     let mut v = vec![];
     let qsets: Vec<(Vec<usize>, QRank)> = if thorough { vec![(vec![2], QRank::Static), (vec![], QRank::Static), (vec![2, 1], QRank::Static), (vec![2], QRank::Dyn), (vec![3], QRank::Static), (vec![1, 2], QRank::Dyn)] } else { vec![(vec![2], QRank::Static), (vec![], QRank::Static), (vec![1, 2], QRank::Static), (vec![2], QRank::Dyn)] };
     for min in 0..=(if thorough { 4usize } else { 3usize }) {
         // 1-D: lengths around the declared minimum, axis explicit (same / other length) or default
         for len in [min.saturating_sub(1).max(1), min.max(2), min.max(2) + 1] {
-            for (ti, trailing) in [vec![], vec![2], vec![1, 2]].into_iter().enumerate() {
+            for (ti, trailing) in (if deep { vec![vec![], vec![2], vec![1, 2], vec![2, 1, 2], vec![0]] } else { vec![vec![], vec![2], vec![1, 2]] }).into_iter().enumerate() {
                 if !thorough && ti == 2 && min % 2 == 1 {
                     continue;
                 }
@@ -507,7 +508,7 @@ pub fn run(args: &Args) -> Report {
     for f in ["interp1d::Interp1DBuilder::build", "interp1d::Interp1DBuilder::strategy", "interp2d::Interp2DBuilder::build", "interp2d::Interp2DBuilder::strategy", "interp1d::Interp1D::interp", "interp1d::Interp1D::interp_scalar", "interp1d::Interp1D::interp_into", "interp1d::Interp1D::interp_array", "interp1d::Interp1D::interp_array_into", "interp2d::Interp2D::interp", "interp2d::Interp2D::interp_scalar", "interp2d::Interp2D::interp_into", "interp2d::Interp2D::interp_array", "interp2d::Interp2D::interp_array_into", "interp1d::Interp1D::index_point", "interp1d::Interp1D::is_in_range", "interp2d::Interp2D::index_point"] {
         rep.functions.insert(f.to_string());
     }
-    rep.bounds.push(format!("recording / failing strategies for Interp1D and Interp2D with declared minimum 0..{}; data lengths around the minimum, trailing (), (2), (1,2), static and IxDyn data; axes explicit (right / wrong length) or default, every axis value an unconstrained IEEE double; queries Ix0, Ix1 x2, Ix2, IxDyn x2 of symbols; entry points interp_array, interp_array_into, interp, interp_into, interp_scalar; failure injection in build and in every interp_into call index as symbolic booleans", if args.thorough() { 4 } else { 3 }));
+    rep.bounds.push(format!("recording / failing strategies for Interp1D and Interp2D with declared minimum 0..{}; data lengths around the minimum, trailing (), (2), (1,2), static and IxDyn data; axes explicit (right / wrong length) or default, every axis value an unconstrained IEEE double; queries Ix0, Ix1 x2, Ix2, IxDyn x2 of symbols; entry points interp_array, interp_array_into, interp, interp_into, interp_scalar; failure injection in build and in every interp_into call index as symbolic booleans", 4));
     rep.outside.push("data ranks above 4; strategies that panic".into());
     rep.assumptions.insert("mode O: comparisons bit-precise IEEE; failure injection points are free boolean solver variables (every failure schedule is a path)".into());
     rep
